@@ -8,7 +8,7 @@ CONSTANTS ExtLen,      \* 1 or 2: maximal length of extension lists
           CandFile, LineFile
 Cands == Domain(ExtLen, PairPool)
 \* the laws are checked on every pair of the part of the domain with the standard address (the relations never look inside addresses)
-LawSet == DomainOver({"10.0.0.1", "abcd.local"}, {1}, ExtLists(1, 0))
+LawSet == DomainOver({"10.0.0.1", "abcd.local"}, {1}, ExtLists(1, 0)) \cup DomainOver({"10.0.0.1"}, {1}, {e \in DupExtLists : Len(e) = 2})
 Laws(a) == LET L == LawSet  mine == {x \in L : SameTransport(x, a)} IN
            /\ EqualSpec(a, a) /\ DeepEqualSpec(a, a)
            /\ \A b \in L : /\ EqualSpec(a, b) = EqualSpec(b, a)
